@@ -564,4 +564,286 @@ theorem olsFromRows_scale (rows : List MsdRow) (n : Nat) (dt c : Rat) :
   · simp only [Except.map, olsVarSlope_scale, rabs_mul_sq, if_true, Except.ok.injEq, Est.mk.injEq, and_true]
     refine ⟨by ring, by ring, by ring⟩
 
+/-! ### automatic number of lags -/
+
+theorem pySliceOpt_none {α} (l : List α) : pySliceOpt l none none = l := by
+  have := pySliceOpt_nonneg l (l.length : Int) (by omega)
+  unfold pySliceOpt at this ⊢
+  simp only [Option.getD_none, Option.getD_some] at this ⊢
+  rw [this]; simp
+
+theorem msdCounts_some_eq_take (t : List Pt) (k : Nat) :
+    msdCounts t (some (k : Int)) = (msdCounts t none).take k := by
+  unfold msdCounts lagsOf
+  rw [pySliceOpt_nonneg _ _ (by omega), pySliceOpt_none, ← List.map_take]
+  simp
+
+theorem msdCounts_take (t : List Pt) (k m : Nat) (h : k ≤ m) :
+    (msdCounts t (some (m : Int))).take k = msdCounts t (some (k : Int)) := by
+  rw [msdCounts_some_eq_take, msdCounts_some_eq_take, List.take_take, Nat.min_eq_left h]
+
+/-- the invariant of the cache of `determine_optimal_points` -/
+def OptInv (t : List Pt) (s : OptState) : Prop := s.rows = msdCounts t (some (s.numberComputed : Int))
+
+theorem refresh_numSlope (t : List Pt) (s : OptState) : (refresh t s).numSlope = s.numSlope := by
+  unfold refresh; simp only; split <;> rfl
+theorem refresh_numIntercept (t : List Pt) (s : OptState) : (refresh t s).numIntercept = s.numIntercept := by
+  unfold refresh; simp only; split <;> rfl
+theorem refresh_seen (t : List Pt) (s : OptState) : (refresh t s).seen = s.seen := by
+  unfold refresh; simp only; split <;> rfl
+theorem refresh_inv (t : List Pt) (s : OptState) (h : OptInv t s) : OptInv t (refresh t s) := by
+  unfold refresh OptInv; simp only; split
+  · rfl
+  · exact h
+theorem refresh_le (t : List Pt) (s : OptState) : s.numSlope ≤ (refresh t s).numberComputed := by
+  unfold refresh; simp only; split
+  · simp only; omega
+  · omega
+
+theorem refresh_take (t : List Pt) (s : OptState) (h : OptInv t s) :
+    (refresh t s).rows.take s.numSlope = msdCounts t (some (s.numSlope : Int)) := by
+  rw [refresh_inv t s h, msdCounts_take _ _ _ (refresh_le t s)]
+
+
+/-- SPECIFICATION of the lag search: no cache, no bookkeeping of `num_intercept` / `number_computed` — every iteration
+    computes the MSD curve afresh for exactly the `cur.1` lags it fits. -/
+def optSpec (op : OptPts) (t : List Pt) : Nat → Nat × Nat → List Nat → Except String (Nat × Nat)
+  | 0, cur, _ => .ok cur
+  | fuel + 1, cur, seen =>
+    if t.length ≤ 4 then .error "RuntimeError"
+    else match op (locErr (ptsOf (msdCounts t (some (cur.1 : Int))))) t.length with
+      | .error e => .error e
+      | .ok nxt => if nxt.1 ∈ cur.1 :: seen then .ok nxt else optSpec op t fuel nxt (cur.1 :: seen)
+
+theorem optLoop_eq_spec (op : OptPts) (t : List Pt) : ∀ (fuel : Nat) (s : OptState), OptInv t s →
+    optLoop op t fuel s = optSpec op t fuel (s.numSlope, s.numIntercept) s.seen
+  | 0, _, _ => rfl
+  | fuel + 1, s, h => by
+    have hi := refresh_inv t s h
+    simp only [optLoop, optSpec, refresh_numSlope, refresh_seen, refresh_take t s h]
+    by_cases h4 : t.length ≤ 4
+    · simp only [h4, if_true]
+    · simp only [h4, if_false]
+      generalize op (locErr (ptsOf (msdCounts t (some (s.numSlope : Int))))) t.length = r
+      cases r with
+      | error e => rfl
+      | ok nxt =>
+        simp only
+        by_cases hm : nxt.1 ∈ s.numSlope :: s.seen
+        · simp only [hm, if_true]
+        · simp only [hm, if_false]
+          exact optLoop_eq_spec op t fuel _ hi
+
+theorem optInit_inv (t : List Pt) (n : Nat) : OptInv t (optInit n) := by
+  unfold OptInv optInit
+  simp only [Nat.cast_zero]; rfl
+
+/-- the spec depends on the track only through its MSD curve and its number of points -/
+theorem optSpec_congr (op : OptPts) (t t' : List Pt) (hl : t'.length = t.length)
+    (hm : ∀ L, msdCounts t' L = msdCounts t L) : ∀ (fuel : Nat) (cur : Nat × Nat) (seen : List Nat),
+    optSpec op t' fuel cur seen = optSpec op t fuel cur seen
+  | 0, _, _ => rfl
+  | fuel + 1, cur, seen => by
+    simp only [optSpec, hl, hm]
+    by_cases h4 : t.length ≤ 4
+    · simp only [h4, if_true]
+    · simp only [h4, if_false]
+      generalize op (locErr (ptsOf (msdCounts t (some (cur.1 : Int))))) t.length = r
+      cases r with
+      | error e => rfl
+      | ok nxt =>
+        simp only
+        by_cases hm' : nxt.1 ∈ cur.1 :: seen
+        · simp only [hm', if_true]
+        · simp only [hm', if_false]
+          exact optSpec_congr op t t' hl hm fuel _ _
+
+theorem locErr_scale (pts : List (Rat × Rat)) (c : Rat) (hc : 0 < c) :
+    locErr (pts.map fun p => (p.1, c * p.2)) = locErr pts := by
+  unfold locErr
+  rw [olsLine_scale]
+  generalize olsLine pts = ab
+  obtain ⟨a, b⟩ := ab
+  have h1 : c * a < 0 ↔ a < 0 := by
+    constructor
+    · intro h; by_contra hn; have : 0 ≤ c * a := mul_nonneg hc.le (not_lt.mp hn); linarith
+    · intro h; exact mul_neg_of_pos_of_neg hc h
+  have h2 : c * b < 0 ↔ b < 0 := by
+    constructor
+    · intro h; by_contra hn; have : 0 ≤ c * b := mul_nonneg hc.le (not_lt.mp hn); linarith
+    · intro h; exact mul_neg_of_pos_of_neg hc h
+  have h3 : c * b = 0 ↔ b = 0 := by simp [hc.ne']
+  have h4 : c * a = 0 ↔ a = 0 := by simp [hc.ne']
+  simp only [h1, h2, h3, h4]
+  congr 3
+  rw [mul_div_mul_left _ _ hc.ne']
+
+theorem optSpec_scale (op : OptPts) (t t' : List Pt) (c : Rat) (hc : 0 < c) (hl : t'.length = t.length)
+    (hm : ∀ L, msdCounts t' L = (msdCounts t L).map fun r => ⟨r.lag, c * r.msd, r.count⟩) :
+    ∀ (fuel : Nat) (cur : Nat × Nat) (seen : List Nat), optSpec op t' fuel cur seen = optSpec op t fuel cur seen
+  | 0, _, _ => rfl
+  | fuel + 1, cur, seen => by
+    simp only [optSpec, hl, hm, ptsOf_scale, locErr_scale _ c hc]
+    by_cases h4 : t.length ≤ 4
+    · simp only [h4, if_true]
+    · simp only [h4, if_false]
+      generalize op (locErr (ptsOf (msdCounts t (some (cur.1 : Int))))) t.length = r
+      cases r with
+      | error e => rfl
+      | ok nxt =>
+        simp only
+        by_cases hm' : nxt.1 ∈ cur.1 :: seen
+        · simp only [hm', if_true]
+        · simp only [hm', if_false]
+          exact optSpec_scale op t t' c hc hl hm fuel _ _
+
+/-! ### GLS update step -/
+theorem sum_map_lin3 {α} (k1 k2 : Rat) (f g h : α → Rat) (l : List α) :
+    (l.map fun x => f x - k1 * g x - k2 * h x).sum = (l.map f).sum - k1 * (l.map g).sum - k2 * (l.map h).sum := by
+  induction l with
+  | nil => simp
+  | cons x t ih => simp only [List.map_cons, List.sum_cons, ih]; ring
+
+theorem sum2_lin3 (W : List (List Rat)) (k1 k2 : Rat) (f g h : Nat → Nat → Rat → Rat) :
+    sum2 W (fun r c w => f r c w - k1 * g r c w - k2 * h r c w) = sum2 W f - k1 * sum2 W g - k2 * sum2 W h := by
+  unfold sum2
+  simp only [sum_map_lin3]
+
+theorem sum2_congr (W : List (List Rat)) (f g : Nat → Nat → Rat → Rat) (h : ∀ r c w, f r c w = g r c w) :
+    sum2 W f = sum2 W g := by
+  have : f = g := by funext r c w; exact h r c w
+  rw [this]
+
+/-- the weighted residual sums of a line `a + b·(c+1)` through the points `(c + 1, msd[c])` under the weight matrix `W` -/
+def glsRes (W : List (List Rat)) (msd : List Rat) (a b : Rat) : Rat :=
+  sum2 W fun _ c w => w * (msd.getD c 0 - a - b * ((c : Rat) + 1))
+def glsResLag (W : List (List Rat)) (msd : List Rat) (a b : Rat) : Rat :=
+  sum2 W fun r c w => ((r : Rat) + 1) * w * (msd.getD c 0 - a - b * ((c : Rat) + 1))
+
+/-- `Σ (c+1) W[r,c]` — equals `lam` when `W` is symmetric -/
+def glsLamT (W : List (List Rat)) : Rat := sum2 W fun _ c w => ((c : Rat) + 1) * w
+
+theorem glsRes_eq (W : List (List Rat)) (msd : List Rat) (a b : Rat) :
+    glsRes W msd a b = glsNu W msd - a * glsKappa W - b * glsLamT W := by
+  unfold glsRes glsNu glsKappa glsLamT
+  rw [← sum2_lin3]
+  apply sum2_congr; intro r c w; ring
+
+theorem glsResLag_eq (W : List (List Rat)) (msd : List Rat) (a b : Rat) :
+    glsResLag W msd a b = glsXi W msd - a * glsLam W - b * glsMu W := by
+  unfold glsResLag glsXi glsLam glsMu
+  rw [← sum2_lin3]
+  apply sum2_congr; intro r c w; ring
+
+
+/-! ### ensemble of identical tracks, automatic number of lags -/
+
+theorem ptsOf_take (rows : List MsdRow) (k : Nat) : (ptsOf rows).take k = ptsOf (rows.take k) := by
+  unfold ptsOf; rw [List.map_take]
+
+theorem optLoopEns_eq_spec (op : OptPts) (t : List Pt) (h5 : ¬ t.length ≤ 4) :
+    ∀ (fuel : Nat) (cur : Nat × Nat) (seen : List Nat),
+    optLoopEns op (ptsOf (msdCounts t none)) t.length fuel cur.1 seen = (optSpec op t fuel cur seen).map (·.1)
+  | 0, _, _ => rfl
+  | fuel + 1, cur, seen => by
+    simp only [optLoopEns, optSpec, h5, if_false, ptsOf_take, ← msdCounts_some_eq_take]
+    generalize op (locErr (ptsOf (msdCounts t (some (cur.1 : Int))))) t.length = r
+    cases r with
+    | error e => rfl
+    | ok nxt =>
+      simp only
+      by_cases hm : nxt.1 ∈ cur.1 :: seen
+      · simp only [hm, if_true]; rfl
+      · simp only [hm, if_false]
+        exact optLoopEns_eq_spec op t h5 fuel nxt _
+
+/-- value and localisation variance of an OLS estimate depend on the fitted points only -/
+theorem olsFromRows_value (rows rows' : List MsdRow) (n n' : Nat) (dt em em' : Rat) (av av' : Bool)
+    (h : ptsOf rows' = ptsOf rows) :
+    (olsFromRows rows' n' dt av' em').map (fun e => (e.value, e.lv)) =
+      (olsFromRows rows n dt av em).map (fun e => (e.value, e.lv)) := by
+  unfold olsFromRows
+  simp only [h]
+  split <;> rfl
+
+/-- an `optimal_points` function that never answers fewer than two lags for the slope (as the code's: `max(2, …)`) -/
+def AtLeastTwo (op : OptPts) : Prop := ∀ le n r, op le n = .ok r → 2 ≤ r.1
+
+theorem optSpec_ge_two (op : OptPts) (hop : AtLeastTwo op) (t : List Pt) :
+    ∀ (fuel : Nat) (cur : Nat × Nat) (seen : List Nat) (r : Nat × Nat), 2 ≤ cur.1 →
+    optSpec op t fuel cur seen = .ok r → 2 ≤ r.1
+  | 0, cur, _, r, hc, h => by
+    simp only [optSpec, Except.ok.injEq] at h; subst h; exact hc
+  | fuel + 1, cur, seen, r, hc, h => by
+    simp only [optSpec] at h
+    split at h
+    · cases h
+    · split at h
+      · cases h
+      · rename_i nxt hn
+        have h2 := hop _ _ _ hn
+        split at h
+        · simp only [Except.ok.injEq] at h; subst h; exact h2
+        · exact optSpec_ge_two op hop t fuel nxt _ r h2 h
+
+theorem optimalPointsF_atLeastTwo : AtLeastTwo optimalPointsF := by
+  intro le n r h
+  unfold optimalPointsF at h
+  split at h
+  · cases h
+  · split at h
+    · cases h
+    · simp only [Except.ok.injEq] at h; subst h; exact Nat.le_max_left _ _
+    · simp only [Except.ok.injEq] at h; subst h; exact Nat.le_max_left _ _
+
+
+
+/-! ### tracks without missing frames -/
+
+/-- no missing frames: the frame indices are `f0, f0 + 1, …` -/
+def Contiguous (t : List Pt) : Prop :=
+  ∃ f0 : Int, t.map (·.1) = (List.range t.length).map fun (i : Nat) => f0 + (i : Int)
+
+
+theorem mem_frames_contiguous (t : List Pt) (f0 : Int)
+    (h : t.map (·.1) = (List.range t.length).map fun (i : Nat) => f0 + (i : Int)) (x : Int) :
+    (∃ a ∈ t, a.1 = x) ↔ ∃ i : Nat, i < t.length ∧ x = f0 + i := by
+  have : x ∈ t.map (·.1) ↔ x ∈ (List.range t.length).map fun (i : Nat) => f0 + (i : Int) := by rw [h]
+  simp only [List.mem_map, List.mem_range] at this
+  constructor
+  · rintro ⟨a, ha, rfl⟩
+    obtain ⟨i, hi, he⟩ := this.mp ⟨a, ha, rfl⟩
+    exact ⟨i, hi, he.symm⟩
+  · rintro ⟨i, hi, rfl⟩
+    obtain ⟨a, ha, he⟩ := this.mpr ⟨i, hi, rfl⟩
+    exact ⟨a, ha, he⟩
+
+theorem lagsAll_contiguous (t : List Pt) (h : Contiguous t) :
+    lagsAll t = (List.range (t.length - 1)).map fun (i : Nat) => ((i : Int) + 1) := by
+  obtain ⟨f0, hf⟩ := h
+  apply sorted_ext _ _ (lagsAll_sorted t)
+  · rw [List.pairwise_map]
+    exact (List.pairwise_lt_range).imp (by intro a b hab; omega)
+  · intro δ
+    rw [mem_lagsAll]
+    simp only [List.mem_map, List.mem_range]
+    constructor
+    · rintro ⟨hpos, a, ha, b, hb, hd⟩
+      obtain ⟨i, hi, hai⟩ := (mem_frames_contiguous t f0 hf a.1).mp ⟨a, ha, rfl⟩
+      obtain ⟨j, hj, hbj⟩ := (mem_frames_contiguous t f0 hf b.1).mp ⟨b, hb, rfl⟩
+      refine ⟨j - i - 1, by omega, by omega⟩
+    · rintro ⟨i, hi, rfl⟩
+      obtain ⟨a, ha, hae⟩ := (mem_frames_contiguous t f0 hf (f0 + (0 : Nat))).mpr ⟨0, by omega, rfl⟩
+      obtain ⟨b, hb, hbe⟩ := (mem_frames_contiguous t f0 hf (f0 + ((i + 1 : Nat) : Int))).mpr ⟨i + 1, by omega, rfl⟩
+      exact ⟨by omega, a, ha, b, hb, by rw [hae, hbe]; push_cast; omega⟩
+
+
+/-! ### dispatcher -/
+
+theorem hasGap_map (g : Pt → Pt) (fi : Int → Int) (h : ∀ p, (g p).1 = fi p.1) (hf : ∀ a b, fi b - fi a = b - a)
+    (t : List Pt) : hasGap (t.map g) = hasGap t := by
+  unfold hasGap
+  rw [map_fst_map g fi h, diffI_map fi hf]
+
+
 end Verif.C09
